@@ -279,7 +279,16 @@ def replay(cid, path):
         for line in (tr or [])[-12:]:
             print("    " + str(line)[:220])
     hits, attempts = 0, 0
-    if seeds and cid not in ("C19",):
+    w0 = (d.get("witnesses") or [{}])[0].get("witness") or {}
+    if str(w0.get("engine", "")).startswith("e2e"):
+        import engines
+        r = engines.replay_e2e(cid, w0, sig)
+        if r is None:
+            print("the replay file does not carry the full real-process scenario: run the check again with the recorded seed instead")
+            return 2
+        hits, attempts = r
+        print("real-process scenario run %d times: signature %s in %d of them" % (attempts, sig, hits))
+    elif seeds and cid not in ("C19",):
         for sd in seeds[:2]:
             shutil.rmtree(outdir, ignore_errors=True)
             os.makedirs(outdir)
